@@ -28,7 +28,26 @@ def text(rng, ei=None):
     pool = ENC_POOL.get(ei, rng.choice(POOLS)) if (ei is not None and rng.random() < 0.85) else POOLS[0]
     n = rng.randrange(1, 12)
     s = "".join(rng.choice(pool) for _ in range(n))
+    if ei in (3, 23, None) and rng.random() < 0.25:
+        # (only UTF-8 and gb18030 can encode it) U+FEFF is an ordinary (valid, canonical) character inside a document: at the start of a text node, inside it,
+        # and right where a write may begin
+        k = rng.randrange(0, len(s) + 1)
+        s = s[:k] + "\ufeff" + s[k:]
     return s.replace("<", "").replace("&", "")
+
+
+# tag names with non-ASCII characters: in Shift_JIS / Big5 / GBK / EUC-KR / gb18030 their trail bytes fall into A-Z / a-z
+NAME_TAILS = ["ア", "ポ", "僉", "亜", "한", "é", "Ж", "x"]
+
+
+def odd_tag(rng, ei):
+    pool = ENC_POOL.get(ei, "")
+    own = [c for c in pool if c.isalpha()]
+    tail = rng.choice(own) if own else "x"
+    if ei in (3, 23) and rng.random() < 0.4:
+        tail = rng.choice(NAME_TAILS)
+    name = rng.choice(["x", "Ab", "q"]) + tail + rng.choice(["", "Z", "-y"])
+    return rng.choice(["<%s>" % name, "</%s>" % name, "<%s a=b>t</%s>" % (name, name), "</%s >" % name])
 
 
 def gen(rng, n, tier, pid):
@@ -37,13 +56,14 @@ def gen(rng, n, tier, pid):
         ei = rng.randrange(36)
         parts = []
         for _ in range(rng.randrange(1, 8)):
-            parts.append(rng.choice(TAGS) if rng.random() < 0.5 else text(rng, ei))
+            r = rng.random()
+            parts.append(rng.choice(TAGS) if r < 0.42 else (odd_tag(rng, ei) if r < 0.52 else text(rng, ei)))
         if rng.random() < 0.15:  # long text node (internal decoder buffer is 1024 bytes)
             parts.append(text(rng, ei) * rng.randrange(100, 400))
         doc = "".join(parts)
         k = rng.choice([0, 1, 1, 2, 3, 5, 9])
         cuts = sorted(rng.randrange(0, 1001) for _ in range(k))
-        out.append(f"{ei} {doc.encode('utf-8').hex() or '-'} {','.join(map(str, cuts)) or '-'} {rng.randrange(6)}")
+        out.append(f"{ei} {doc.encode('utf-8').hex() or '-'} {','.join(map(str, cuts)) or '-'} {rng.randrange(7)}")
     return out
 
 
